@@ -31,8 +31,23 @@ def check_text(tree, text):
     return layout.compare(p.objects, tree, lines=False)
 
 
+def isspace_sweep(ctx):
+    """the model's str.isspace table against the runtime over every code point (surrogates excluded)"""
+    from common import run_model
+    a = run_model([["isspace_table"]])[0]
+    py = [i for i in range(0x110000) if not (0xD800 <= i <= 0xDFFF) and chr(i).isspace()]
+    ctx.case("isspace_table")
+    ctx.traces += 1
+    if a != ["ok", py]:
+        ctx.disagree("isspace_table", {"table": "str.isspace"}, a[1][:40] if a[0] == "ok" else a, py)
+    else:
+        ctx.notes.append("isspace table equals str.isspace over all %d code points (%d blanks)" % (0x110000 - 2048, len(py)))
+
+
 def run(ctx):
     rng = ctx.rng
+    if ctx.tier == "thorough" and ctx.mode == "normal":
+        isspace_sweep(ctx)
     n = ctx.scale(1500, 40000, 8000)
     cases, reqs, impls = [], [], []
     for i in range(n):
